@@ -189,3 +189,27 @@ PROPS["C04"] = {
             "capacity. Non-trivial = accepted and (at least 2 compaction segments or a text sub-mode change); distinct by (level, content).",
     "assumptions": COMMON_ASSUMPTIONS + ["rejection is only judged when even 2 codewords per byte would fit into 900 codewords (capacity boundaries are judged in C10/C13)"],
 }
+
+PROPS["C04"]["universes"]["pdf_submode_transitions"].remove("lower>alpha")  # the encoder reaches alpha from lower only through 'as' shifts or via mixed
+
+AZTEC_SIZES = [f"compact-{l}" for l in range(1, 5)] + [f"full-{l}" for l in range(1, 33)]
+
+PROPS["C03"] = {
+    "technique": "round-trip property testing: grammar-based rapid generation of mode-switch-heavy payloads x ecc% x 37 layer requests + sweep over all 36 sizes, all byte values and all mode-pair triples, decoded by an independent ISO 24778 reader",
+    "level_text": "exploration: every accepted (payload, ecc%, layers) is read back by an independent reader: bullseye rings, orientation marks, RS-valid mode message over GF(16) agreeing with the symbol size, complete reference grid, spiral data read-out over own geometry, RS-valid data+check words over GF(2^6/8/10/12), no all-zero/all-one data word, un-stuffing, Upper/Lower/Mixed/Punct/Digit/Binary-shift decoding from the standard's tables, trailing bits all 1; bytes must equal the payload and explicit layer requests must be honoured exactly",
+    "level_note": RT_NOTE + "; the data-layer geometry follows the reading used by the ZXing reader and is self-tested on two externally sourced symbols (compact 3-layer, full 6-layer); which mode path the encoder takes is not judged; acceptance near capacity is judged in C10/C13",
+    "parts": [
+        {"name": "regression", "kind": "plain", "test": "TestReplayDir"},
+        {"name": "known-findings", "kind": "plain", "test": "TestC03KnownFindings"},
+        {"name": "sweep", "kind": "plain", "test": "TestC03Sweep"},
+        {"name": "rapid", "kind": "rapid", "test": "TestC03Rapid", "checks": {"quick": 30000, "thorough": 1200000}},
+    ],
+    "universes": {"aztec_sizes": AZTEC_SIZES, "aztec_word_sizes": ["6", "8", "10", "12"]},
+    "rule": "payload = 0..9 grammar segments (upper, lower, digit, mixed-control, punctuation runs, the four two-character punctuation pairs, binary runs of "
+            "1,2,3,5,30..33,61..64,80 bytes, arbitrary bytes, single foreign characters inside lower/digit runs, pairs next to digits, byte-value windows, bulk fill "
+            "towards the capacity of the requested size) x ecc% in {0,1,5,10,23,25,33,50,75,90,100,150,300} or U(0..100) x layers (0: 50%, -4..-1, 1..32, invalid); "
+            "sweep = 36 sizes x 3 ecc% x 3 content kinds by explicit request, every byte value in three contexts, all 13^3 triples of mode representatives, "
+            "binary runs at 30..64/100/2046/2047 (thorough: 2077..2110). Non-trivial = accepted and the reader saw at least one mode transition or "
+            "binary shift; distinct by (ecc%, layers, payload).",
+    "assumptions": COMMON_ASSUMPTIONS,
+}
